@@ -679,4 +679,295 @@ def judgeChange (dt : DType F) (j : JVal F) (prev : Option (PVal F)) (hint : Opt
 def judgeTotal (outs : List (Outcome F)) : List String :=
   if outs.all Outcome.total then [] else ["total:unmodelled-input"]
 
+/-! ## the conversion-only path: a value from a driver at the result position of a command
+
+`Command.do` hands the return value of the command function to the client after `self.result(res)` — the datatype's
+`__call__`, which converts and checks the type but, by design, not the numeric limits (a device reports what it
+reports; the same holds for `read_*` results and driver updates).  The clause of the statement that still applies is
+"a value of the type, or a bad-value error, never anything else": `OfType dt r` is the declared value set of `dt`
+with the limits of the numeric leaves (double, int, scaled) left out — everything else (kinds, grid membership,
+enum membership, string / blob lengths and character sets, array lengths, arity, member names, mandatory members)
+as in `InSet`. -/
+
+mutual
+/-- the value set of `dt`, numeric limits aside; `G scale x` = "`x` is a grid value of `scale`" -/
+def OfTypeG (G : F → F → Prop) : DType F → PVal F → Prop
+  | .double _ _ _ _, v =>
+    match v with
+    | .float x => isNaN x = false ∧ le (neg maxFinite) x = true ∧ le x maxFinite = true
+    | _ => False
+  | .int _ _, v =>
+    match v with
+    | .int _ => True
+    | _ => False
+  | .scaled scale _ _ _ _, v =>
+    match v with
+    | .float x => G scale x
+    | _ => False
+  | .bool, v =>
+    match v with
+    | .bool _ => True
+    | _ => False
+  | .enum ms, v =>
+    match v with
+    | .enum n k => (n, k) ∈ ms
+    | _ => False
+  | .string minc maxc utf8, v =>
+    match v with
+    | .str s => minc ≤ s.length ∧ s.length ≤ maxc ∧ (utf8 = false → ∀ c ∈ s.toList, c.toNat < 128) ∧
+        (∀ c ∈ s.toList, c.toNat ≠ 0)
+    | _ => False
+  | .blob minb maxb, v =>
+    match v with
+    | .bytes b => minb ≤ b.length ∧ b.length ≤ maxb
+    | _ => False
+  | .array elem minlen maxlen, v =>
+    match v with
+    | .tuple vs => (∀ x ∈ vs, OfTypeG G elem x) ∧ minlen ≤ vs.length ∧ vs.length ≤ maxlen
+    | _ => False
+  | .tuple elems, v =>
+    match v with
+    | .tuple vs => ZipOfTypeG G elems vs
+    | _ => False
+  | .struct ms opt _, v =>
+    match v with
+    | .dict fields => (∀ kv ∈ fields, MemberOfTypeG G ms kv.1 kv.2) ∧ (fields.map (·.1)).Nodup ∧
+        (∀ k ∈ ms.map (·.1), k ∉ opt → k ∈ fields.map (·.1))
+    | _ => False
+def ZipOfTypeG (G : F → F → Prop) : List (DType F) → List (PVal F) → Prop
+  | [], [] => True
+  | t :: ts, v :: vs => OfTypeG G t v ∧ ZipOfTypeG G ts vs
+  | _, _ => False
+def MemberOfTypeG (G : F → F → Prop) : List (String × DType F) → String → PVal F → Prop
+  | [], _, _ => False
+  | (k, t) :: rest, key, v => if k = key then OfTypeG G t v else MemberOfTypeG G rest key v
+end
+
+/-- `r` is a value of the type `dt` (numeric limits aside) -/
+def OfType (dt : DType F) (v : PVal F) : Prop := OfTypeG OnGrid dt v
+
+/-- what the monitor decides (`OnGridNear` for `OnGrid`) -/
+def OfTypeM (dt : DType F) (v : PVal F) : Prop := OfTypeG OnGridNear dt v
+
+section
+variable (G : F → F → Prop) [∀ s x, Decidable (G s x)]
+mutual
+def decOfTypeG : (dt : DType F) → (v : PVal F) → Decidable (OfTypeG G dt v)
+  | .double _ _ _ _, v => by cases v <;> simp only [OfTypeG] <;> infer_instance
+  | .int _ _, v => by cases v <;> simp only [OfTypeG] <;> infer_instance
+  | .scaled _ _ _ _ _, v => by cases v <;> simp only [OfTypeG] <;> infer_instance
+  | .bool, v => by cases v <;> simp only [OfTypeG] <;> infer_instance
+  | .enum _, v => by cases v <;> simp only [OfTypeG] <;> infer_instance
+  | .string _ _ _, v => by cases v <;> simp only [OfTypeG] <;> infer_instance
+  | .blob _ _, v => by cases v <;> simp only [OfTypeG] <;> infer_instance
+  | .array elem _ _, v => by
+    cases v
+    case tuple vs =>
+      simp only [OfTypeG]
+      have : ∀ x, Decidable (OfTypeG G elem x) := decOfTypeG elem
+      infer_instance
+    all_goals (simp only [OfTypeG]; infer_instance)
+  | .tuple elems, v => by
+    cases v
+    case tuple vs => simp only [OfTypeG]; exact decZipOfTypeG elems vs
+    all_goals (simp only [OfTypeG]; infer_instance)
+  | .struct ms _ _, v => by
+    cases v
+    case dict fields =>
+      simp only [OfTypeG]
+      have : ∀ k x, Decidable (MemberOfTypeG G ms k x) := decMemberOfTypeG ms
+      infer_instance
+    all_goals (simp only [OfTypeG]; infer_instance)
+def decZipOfTypeG : (ts : List (DType F)) → (vs : List (PVal F)) → Decidable (ZipOfTypeG G ts vs)
+  | [], [] => by simp only [ZipOfTypeG]; infer_instance
+  | t :: ts, v :: vs => by
+    simp only [ZipOfTypeG]
+    have := decOfTypeG t v
+    have := decZipOfTypeG ts vs
+    infer_instance
+  | [], _ :: _ => by simp only [ZipOfTypeG]; infer_instance
+  | _ :: _, [] => by simp only [ZipOfTypeG]; infer_instance
+def decMemberOfTypeG : (ms : List (String × DType F)) → (k : String) → (v : PVal F) → Decidable (MemberOfTypeG G ms k v)
+  | [], _, _ => by simp only [MemberOfTypeG]; infer_instance
+  | (k, t) :: rest, key, v => by
+    simp only [MemberOfTypeG]
+    have := decOfTypeG t v
+    have := decMemberOfTypeG rest key v
+    infer_instance
+end
+end
+
+instance (dt : DType F) (v : PVal F) : Decidable (OfTypeM dt v) := decOfTypeG OnGridNear dt v
+
+/-- monitor of "a value of the type" -/
+def ofTypeB (dt : DType F) (v : PVal F) : Bool := decide (OfTypeM dt v)
+
+/-! ### … and denotes the value the driver handed over (conversion only: no previous value, no limits, no clamping) -/
+
+mutual
+/-- `r` is the Python value `o` converted to the type `dt`: numbers numerically equal (±inf offered to a double stand
+for ±max; a scaled value is the grid value nearest to the number offered), an enum member named or numbered, strings
+and bytes equal, sequences element-wise of equal length, structs key-wise (`None`-valued keys dropped) -/
+def ConvDenotes : DType F → PVal F → PVal F → Prop
+  | .double _ _ _ _, o, r =>
+    match r with
+    | .float y =>
+      (match toFloat? o with
+       | some x => isNaN x = false ∧ same y (clampInf x) = true
+       | none => False)
+    | _ => False
+  | .int _ _, o, r =>
+    match r with
+    | .int i => numInt? o = some i
+    | _ => False
+  | .scaled scale _ _ _ _, o, r =>
+    match r with
+    | .float y =>
+      (match toFloat? o with
+       | some x =>
+         (match gridIndex scale x with
+          | some k => IsSome (ofGrid scale k) y
+          | none => False)
+       | none => False)
+    | _ => False
+  | .bool, o, r =>
+    match r with
+    | .bool b => intLike? o = some (if b then 1 else 0)
+    | _ => False
+  | .enum ms, o, r =>
+    match r with
+    | .enum n k => DenotesEnum ms o n k
+    | _ => False
+  | .string _ _ _, o, r =>
+    match o, r with
+    | .str s, .str t => s = t
+    | _, _ => False
+  | .blob _ _, o, r =>
+    match o, r with
+    | .bytes s, .bytes t => s = t
+    | _, _ => False
+  | .array elem _ _, o, r =>
+    match seqItems? o, r with
+    | some vs, .tuple rs => AllDen (fun _ x y => ConvDenotes elem x y) [] vs rs
+    | _, _ => False
+  | .tuple elems, o, r =>
+    match seqItems? o, r with
+    | some vs, .tuple rs => ZipConv elems vs rs
+    | _, _ => False
+  | .struct ms _ _, o, r =>
+    match o, r with
+    | .dict fields, .dict rf => DenotesStruct (fun k x y => MemberConv ms k x y) [] fields rf
+    | _, _ => False
+def ZipConv : List (DType F) → List (PVal F) → List (PVal F) → Prop
+  | [], [], [] => True
+  | t :: ts, v :: vs, r :: rs => ConvDenotes t v r ∧ ZipConv ts vs rs
+  | _, _, _ => False
+def MemberConv : List (String × DType F) → String → PVal F → PVal F → Prop
+  | [], _, _, _ => False
+  | (k, t) :: rest, key, o, r => if k = key then ConvDenotes t o r else MemberConv rest key o r
+end
+
+mutual
+def decConvDenotes : (dt : DType F) → (o r : PVal F) → Decidable (ConvDenotes dt o r)
+  | .double _ _ _ _, o, r => by
+    cases r <;> simp only [ConvDenotes] <;> try infer_instance
+    split <;> infer_instance
+  | .int _ _, _, r => by cases r <;> simp only [ConvDenotes] <;> infer_instance
+  | .scaled _ _ _ _ _, o, r => by
+    cases r <;> simp only [ConvDenotes] <;> try infer_instance
+    split
+    · split <;> infer_instance
+    · infer_instance
+  | .bool, _, r => by cases r <;> simp only [ConvDenotes] <;> infer_instance
+  | .enum _, _, r => by cases r <;> simp only [ConvDenotes] <;> infer_instance
+  | .string _ _ _, o, r => by simp only [ConvDenotes]; split <;> infer_instance
+  | .blob _ _, o, r => by simp only [ConvDenotes]; split <;> infer_instance
+  | .array elem _ _, o, r => by
+    simp only [ConvDenotes]
+    split
+    · exact decAllDen _ (fun _ x y => decConvDenotes elem x y) _ _ _
+    · infer_instance
+  | .tuple elems, o, r => by
+    simp only [ConvDenotes]
+    split
+    · exact decZipConv elems _ _
+    · infer_instance
+  | .struct ms _ _, o, r => by
+    simp only [ConvDenotes]
+    split
+    · exact decDenotesStruct _ (fun k x y => decMemberConv ms k x y) _ _ _
+    · infer_instance
+def decZipConv : (ts : List (DType F)) → (vs rs : List (PVal F)) → Decidable (ZipConv ts vs rs)
+  | [], [], [] => by simp only [ZipConv]; infer_instance
+  | t :: ts, v :: vs, r :: rs => by
+    simp only [ZipConv]
+    have := decConvDenotes t v r
+    have := decZipConv ts vs rs
+    infer_instance
+  | [], _ :: _, _ => by simp only [ZipConv]; infer_instance
+  | [], [], _ :: _ => by simp only [ZipConv]; infer_instance
+  | _ :: _, [], _ => by simp only [ZipConv]; infer_instance
+  | _ :: _, _ :: _, [] => by simp only [ZipConv]; infer_instance
+def decMemberConv : (ms : List (String × DType F)) → (k : String) → (o r : PVal F) → Decidable (MemberConv ms k o r)
+  | [], _, _, _ => by simp only [MemberConv]; infer_instance
+  | (k, t) :: rest, key, o, r => by
+    simp only [MemberConv]
+    have := decConvDenotes t o r
+    have := decMemberConv rest key o r
+    infer_instance
+end
+
+instance (dt : DType F) (o r : PVal F) : Decidable (ConvDenotes dt o r) := decConvDenotes dt o r
+
+/-- monitor of "the converted value denotes the value handed over" -/
+def convDenotesB (dt : DType F) (o r : PVal F) : Bool := decide (ConvDenotes dt o r)
+
+/-- the conversion-only path `dt(o)` (driver updates, results of `read_*` and of commands, configured values): a value
+of the type that denotes the value handed over, or a bad-value error; never anything else -/
+def ConvOK (dt : DType F) (o : PVal F) : Outcome F → Prop
+  | .ok r => OfType dt r ∧ ConvDenotes dt o r
+  | .bad => True
+  | .other _ => False
+
+/-- monitor of `ConvOK`, plus "converting the converted value again returns it unchanged" -/
+def judgeConv (dt : DType F) (o : PVal F) (call : Outcome F) (recall : Option (Outcome F)) : List String :=
+  match call with
+  | .ok r =>
+    (if ofTypeB dt r then [] else ["oftype:call"]) ++ (if convDenotesB dt o r then [] else ["denotes:call"]) ++
+    (match recall with | some x => if x.returns r then [] else ["idem:call"] | none => ["idem:missing"])
+  | .other _ => ["total:call"]
+  | .bad => []
+
+/-- what `Command.do` returned (`out`) for a command with declared result type `resT` (`none`: no result type — the
+return value of the function is ignored and `None` handed back) whose function returned `ret`: a value of the result
+type that denotes `ret`, or a bad-value error; never anything else — in particular never the driver's `None` for a
+declared type -/
+def ResultOK (resT : Option (DType F)) (ret : PVal F) : Outcome F → Prop
+  | .ok r =>
+    match resT with
+    | some dt => OfType dt r ∧ ConvDenotes dt ret r
+    | none => isNone r = true
+  | .bad => True
+  | .other _ => False
+
+/-- monitor of `ResultOK`, plus "converting the converted value again returns it unchanged" (`again` = the outcome of
+`result(r)` on the value returned) -/
+def judgeResult (resT : Option (DType F)) (ret : PVal F) (out : Outcome F) (again : Option (Outcome F)) : List String :=
+  match out with
+  | .ok r =>
+    (match resT with
+     | some dt => (if ofTypeB dt r then [] else ["oftype:result"]) ++ (if convDenotesB dt ret r then [] else ["denotes:result"])
+     | none => if isNone r then [] else ["oftype:result"]) ++
+    (match resT, again with
+     | some _, some x => if x.returns r then [] else ["idem:result"]
+     | some _, none => ["idem:missing"]
+     | none, _ => [])
+  | .other _ => ["total:result"]
+  | .bad => []
+
+/-- the error-text helper on the refusal path: it has to answer a text for every candidate (`{"ok": text}`), whatever
+the candidate's kind or size and whatever `repr` does -/
+def judgeHelper (out : Outcome F) : List String :=
+  if out.total then [] else ["total:error-text"]
+
 end Frappy.Spec.C01
